@@ -69,3 +69,17 @@ package concurrencylimiter
 //@   call Value#1 ghost limited = (ret0 is *limiter)
 //@   call select.recv ghost gaveUp = true
 //@   ensures limited && !gaveUp ==> sent == 1
+
+// ---- C20 (TemporarilyRelease): only a caller that holds a token gives one up, through its own holder; without a holder the
+// function is simply called - no token is taken from or put into the pool on behalf of anybody else - and f runs exactly once.
+//@ func TemporarilyRelease
+//@   call Value assume ret0 is *holder ==> ret0.(*holder) != nil && ret0.(*holder).l != nil      // the only value stored under holderKey is the holder Acquire built around its limiter
+//@   ghost nrun int
+//@   ghost nblock int
+//@   entry ghost nrun = 0
+//@   entry ghost nblock = 0
+//@   call dynamic ghost nrun = nrun + 1
+//@   call holder.block assert arg1 == f
+//@   call holder.block ghost nblock = nblock + 1
+//@   nocall recv, send, select.recv, select.send
+//@   ensures nrun + nblock == 1
